@@ -352,6 +352,27 @@ func sectionedRules() lexer.Rules {
 	}
 }
 
+// includedTerminatorRules: the back-reference rule reaches the here-document state only through
+// an Include.
+func includedTerminatorRules() lexer.Rules {
+	return lexer.Rules{
+		"Root": {
+			{Name: "Start", Pattern: `<<(\w+)\b`, Action: lexer.Push("Doc")},
+			{Name: "Word", Pattern: `\w+`},
+			{Name: "space", Pattern: `\s+`},
+		},
+		"Doc": {
+			lexer.Include("Terminators"),
+			{Name: "Word", Pattern: `\w+`},
+			{Name: "space", Pattern: `\s+`},
+		},
+		"Terminators": {
+			{Name: "End", Pattern: `\b\1\b`, Action: lexer.Pop()},
+			{Name: "Abort", Pattern: `!\1!`, Action: lexer.Pop()},
+		},
+	}
+}
+
 // pointerActionRules: actions given as pointers (&lexer.ActionPush{...}), as rule maps assembled by
 // a program often carry them; *ActionPush and *ActionPop implement lexer.Action like the values
 // lexer.Push and lexer.Pop return.  The patterns of these rules can match the empty string.
@@ -435,6 +456,8 @@ var coreLexDefs = []*lexDef{
 		corpus: []string{"a <<-END x y END b", "a <<END x END b", "<<- x", "<<E", ""}},
 	{name: "sectioned", rules: sectionedRules, genName: "OptSectioned", build: func() lexer.Definition { return mustRules(sectionedRules()) },
 		corpus: []string{"a <<DOC x DOC:sec y z sec w DOC b", "<<A A:b A:b", "<<A A:b b A:c c A d", "<<A A: x", "<<A A:b", "<<\xffT x \xffT y", "<<T T:\xc3 a \xc3 T", "<<\u00e9t\u00e9 \u00e9t\u00e9:\u00fc x \u00fc \u00e9t\u00e9", ""}},
+	{name: "included-terminator", rules: includedTerminatorRules, build: func() lexer.Definition { return mustRules(includedTerminatorRules()) },
+		corpus: []string{"a <<END x y END b", "<<A b !A! c <<B B", "<<A b", "<<A ?", ""}},
 	{name: "pointer-actions", rules: pointerActionRules, build: func() lexer.Definition { return mustRules(pointerActionRules()) },
 		corpus: []string{"a (b c) d\n", "a ((b #todo: c)) d", "a ! b", "(a , b)", "(a #x: ! b)", "((a)", "foo\n) bar", ""}},
 	{name: "basic-runtime", build: basicRuntimeDef, genName: "",
